@@ -86,19 +86,25 @@ Proof. exact (mask_compose_U2 s n m). Qed.
 Print Assumptions C03_compose_U2.
 
 (* ---- masks WITH NAMES, all valid signatures (Proofs/MaskNames*.v, MaskAlgebra.v): exactness and the
-   raise condition, the one excluded case as a refutation (a consumed positional-only name), composition
-   as an equality of whole results, permutation invariance for all 16 hide-flag sets ---- *)
-Theorem C03_names_exact : forall (ps : list param) (n : nat) (names0 : list name), valid_sig ps = true -> NoDup names0 -> names_avoid_po ps names0 = true -> match mask (mk ps) n names0 nohide with | Ok r => forall c : call, disjointb (kws c) names0 = true -> noncolliding c (params r) [ps] = true -> accepts (params r) c = accepts ps (shift_call n names0 c) | Err e => e = ValueErr /\ (forall c : call, disjointb (kws c) names0 = true -> accepts ps (shift_call n names0 c) = false) end.
+   raise condition for EVERY duplicate-free name tuple (no side condition on the names is left after the
+   repair of _mask: a keyword named like a consumed positional-only parameter goes to the double-star
+   parameter), the formerly refuting input as a positive example, duplicates refuted, composition as an
+   equality of whole results, permutation invariance for all 16 hide-flag sets ---- *)
+Theorem C03_names_exact : forall (ps : list param) (n : nat) (names0 : list name), valid_sig ps = true -> NoDup names0 -> match mask (mk ps) n names0 nohide with | Ok r => forall c : call, disjointb (kws c) names0 = true -> noncolliding c (params r) [ps] = true -> accepts (params r) c = accepts ps (shift_call n names0 c) | Err e => e = ValueErr /\ (forall c : call, disjointb (kws c) names0 = true -> accepts ps (shift_call n names0 c) = false) end.
 Proof. exact @MaskNamesProps.C03_names_exact. Qed.
 Print Assumptions C03_names_exact.
 
-Theorem C03_mask_names_exact : forall (s : sigT) (n : nat) (names0 : list name), valid_sig (params s) = true -> NoDup names0 -> avoid_consumed_po (params s) n names0 = true -> match mask s n names0 nohide0 with | Ok r => forall c : call, disjointb (kws c) names0 = true -> noncolliding c (params r) [params s] = true -> accepts (params r) c = accepts (params s) (shift_call n names0 c) | Err e => e = ValueErr /\ (forall c : call, disjointb (kws c) names0 = true -> accepts (params s) (shift_call n names0 c) = false) end.
+Theorem C03_mask_names_exact : forall (s : sigT) (n : nat) (names0 : list name), valid_sig (params s) = true -> NoDup names0 -> match mask s n names0 nohide0 with | Ok r => forall c : call, disjointb (kws c) names0 = true -> noncolliding c (params r) [params s] = true -> accepts (params r) c = accepts (params s) (shift_call n names0 c) | Err e => e = ValueErr /\ (forall c : call, disjointb (kws c) names0 = true -> accepts (params s) (shift_call n names0 c) = false) end.
 Proof. exact @MaskNames.mask_names_exact. Qed.
 Print Assumptions C03_mask_names_exact.
 
-Theorem C03_mask_names_exact_refuted : exists (s : sigT) (n : nat) (names0 : list name) (c : call), valid_sig (params s) = true /\ NoDup names0 /\ disjointb (kws c) names0 = true /\ mask s n names0 nohide0 = Err ValueErr /\ accepts (params s) (shift_call n names0 c) = true.
-Proof. exact @MaskNames.mask_names_exact_refuted. Qed.
-Print Assumptions C03_mask_names_exact_refuted.
+Theorem C03_mask_names_exact_formerly_refuted : valid_sig (params po_sig) = true /\ NoDup [1] /\ (exists r : sigT, mask po_sig 1 [1] nohide0 = Ok r /\ params r = [{| pname := 10; pkind := VK; pdef := None; pann := None; puann := UEmpty |}] /\ (forall c : call, disjointb (kws c) [1] = true -> noncolliding c (params r) [params po_sig] = true -> accepts (params r) c = accepts (params po_sig) (shift_call 1 [1] c))).
+Proof. exact @MaskNames.mask_names_exact_formerly_refuted. Qed.
+Print Assumptions C03_mask_names_exact_formerly_refuted.
+
+Theorem C03_mask_names_exact_dup_refuted : exists (s : sigT) (n : nat) (names0 : list name) (c : call), valid_sig (params s) = true /\ disjointb (kws c) names0 = true /\ mask s n names0 nohide0 = Err ValueErr /\ accepts (params s) (shift_call n names0 c) = true.
+Proof. exact @MaskNames.mask_names_exact_dup_refuted. Qed.
+Print Assumptions C03_mask_names_exact_dup_refuted.
 
 Theorem C03_mask_compose : forall (s : sigT) (n m : nat), valid_sig (params s) = true -> match mask s n [] nohide0 with | Ok r => mask r m [] nohide0 = mask s (n + m) [] nohide0 | Err e => mask s (n + m) [] nohide0 = Err e end.
 Proof. exact @MaskAlgebra.mask_compose. Qed.
